@@ -214,7 +214,12 @@ func judgeFinalizer(c *vs.Case, e *Env, t *SyncTrace, pre map[string]any, faultF
 					continue
 				}
 				d := e.W.Sim.DefByKind(om["apiVersion"].(string), om["kind"].(string))
-				ws := t.WritesOn(d.Resource, metaStr(om, "namespace"), metaStr(om, "name"))
+				var ws []*vs.Request
+				for _, wr := range t.WritesOn(d.Resource, metaStr(om, "namespace"), metaStr(om, "name")) {
+					if !isOwnershipEdit(wr) { // an orphan is adopted first, then dropped like the others
+						ws = append(ws, wr)
+					}
+				}
 				if len(ws) != 1 || ws[0].Verb != "delete" {
 					return vs.Violf("C10/finalize-answer-not-applied", "the finalize hook dropped %s but the sync issued %v for it", ObjID(om), reqStrs(ws))
 				}
@@ -305,7 +310,7 @@ func PropC10(c *vs.Case, f Factory, kind string) error {
 		steps = len(script) + c.Int(3)
 	}
 	for s := 0; s < steps; s++ {
-		op := c.Weighted(8, 2, 2, 1, 1, 1)
+		op := c.Weighted(8, 2, 2, 1, 1, 1, 1)
 		if s < len(script) {
 			op = script[s]
 			if op == 0 {
@@ -385,6 +390,22 @@ func PropC10(c *vs.Case, f Factory, kind string) error {
 				}
 			})
 			log = append(log, "template.v changed")
+		case 6: // an object that looks like an orphaned child of this parent appears (also while the parent is dying)
+			if scn.Cfg.Kind == "composite" && len(scn.Cfg.Children) > 0 {
+				d := env.W.Sim.Def(scn.Cfg.Children[0].Resource)
+				obj := map[string]any{"apiVersion": d.APIVersion(), "kind": d.Kind, "metadata": map[string]any{"name": fmt.Sprintf("stray%d", s), "labels": env.MatchLabels()}}
+				if d.Namespaced {
+					ns := scn.ParentNS()
+					if ns == "" {
+						ns = "ns1"
+					}
+					obj["metadata"].(map[string]any)["namespace"] = ns
+				}
+				if _, err := env.W.Sim.ExtCreate(d.Resource, obj); err == nil {
+					log = append(log, "matching orphan "+ObjID(obj)+" appears")
+					c.Class("matching-orphan-appears")
+				}
+			}
 		case 5: // the garbage collector finishes its part
 			env.W.Sim.ExtUpdate(scn.Cfg.ParentResource, scn.ParentNS(), scn.ParentName(), func(o map[string]any) {
 				m := o["metadata"].(map[string]any)
